@@ -114,6 +114,8 @@ func main() {
 		cmdAuth(os.Args[2:])
 	case "l1c":
 		cmdL1c(os.Args[2:])
+	case "l2hist":
+		cmdL2Hist(os.Args[2:])
 	case "l2":
 		cmdL2(os.Args[2:])
 	case "idgen":
